@@ -93,6 +93,11 @@ class History:
             self.violate(f"outcome-differs:{kind}", f"{kind} step {step}: proxy {'succeeds' if a_ok else 'fails'} but raw JSON {'succeeds' if b_ok else 'fails'}: "
                          f"proxy={str(oa.get('panic') or ra)[:140]} raw={str(rb)[:140]}")
             return None, None
+        ea = [{k: e.get(k) for k in ("handler", "args", "info")} for e in oa.get("events", [])]
+        eb = [{k: e.get(k) for k in ("handler", "args", "info")} for e in ob.get("events", [])]
+        if ea != eb:
+            self.violate(f"handler-saw-differently:{kind}", f"{kind} step {step}: the handler saw {json.dumps(ea)[:200]} through the proxy but {json.dumps(eb)[:200]} through raw JSON")
+            return None, None
         if a_ok:
             self.ctx.count(f"{kind}_ok")
             return ra["ok"], rb["ok"]
